@@ -327,7 +327,7 @@ func (e *Engine) merge(fr *Frame, b *ssa.BasicBlock, ins []edgeIn) *State {
 	if sameA {
 		st.alloc = first.alloc
 	} else {
-		na := e.fresh(SInt, "alloc")
+		na := e.fresh(e.rs(), "alloc")
 		for _, in := range ins {
 			e.assume(Implies(in.st.guard, Eq(na, in.st.alloc)))
 		}
@@ -501,7 +501,7 @@ func adoptNilShape(a, b Val) (Val, Val) {
 	if staticShape(pa) == staticShape(pb) {
 		return a, b
 	}
-	if pa.Rid.S == "0" {
+	if isNilRid(pa.Rid) {
 		n := pb
 		n.Rid, n.Idx, n.NonNil = pa.Rid, pa.Idx, false
 		if len(pb.ArrIdx) > 0 {
@@ -509,7 +509,7 @@ func adoptNilShape(a, b Val) (Val, Val) {
 		}
 		return n, b
 	}
-	if pb.Rid.S == "0" {
+	if isNilRid(pb.Rid) {
 		n := pa
 		n.Rid, n.Idx, n.NonNil = pb.Rid, pb.Idx, false
 		return a, n
@@ -546,13 +546,13 @@ func (e *Engine) freshLike(v Val, hint string) Val {
 		return n
 	case SliceV:
 		is := e.ar.idxSort()
-		return SliceV{Ty: x.Ty, Rid: e.fresh(SInt, hint+".rid"), Off: e.fresh(is, hint+".off"), Len: e.fresh(is, hint+".len"), Cap: e.fresh(is, hint+".cap")}
+		return SliceV{Ty: x.Ty, Rid: e.fresh(e.rs(), hint+".rid"), Off: e.fresh(is, hint+".off"), Len: e.fresh(is, hint+".len"), Cap: e.fresh(is, hint+".cap")}
 	case PtrV:
 		if x.Local != nil {
 			return x
 		}
 		n := x
-		n.Rid = e.fresh(SInt, hint+".prid")
+		n.Rid = e.fresh(e.rs(), hint+".prid")
 		n.Idx = e.fresh(e.ar.idxSort(), hint+".pidx")
 		if len(x.ArrIdx) > 0 {
 			n.ArrIdx = []Term{e.fresh(e.ar.idxSort(), hint+".aidx")}
@@ -607,7 +607,7 @@ func (e *Engine) enterLoop(fr *Frame, l *Loop, pre *State) *State {
 	for k, t := range d.heap {
 		d.heap[k] = e.fresh(t.Sort, "discM")
 	}
-	d.alloc = e.fresh(SInt, "discalloc")
+	d.alloc = e.fresh(e.rs(), "discalloc")
 	dref := d.clone()
 	backs := e.runBlocks(fr, body, l.header, d, l)
 	chCells := map[*ssa.Alloc]bool{}
@@ -675,8 +675,8 @@ func (e *Engine) enterLoop(fr *Frame, l *Loop, pre *State) *State {
 	}
 	l.frameInv = ff
 	if chAlloc {
-		na := e.fresh(SInt, fmt.Sprintf("L%d.alloc", l.ord))
-		e.assume(app(SBool, ">=", na, st.alloc))
+		na := e.fresh(e.rs(), fmt.Sprintf("L%d.alloc", l.ord))
+		e.assume(e.ridLe(st.alloc, na))
 		st.alloc = na
 	}
 	// cells holding heap values must stay well-formed w.r.t. the new alloc
@@ -811,9 +811,9 @@ func (fr *Frame) get(e *Engine, v ssa.Value) Val {
 	case *ssa.Global:
 		return e.globalPtr(c)
 	case *ssa.Function:
-		return Scalar{e.declare("fn:"+c.String(), SInt), c.Type()}
+		return Scalar{e.declare("fn:"+c.String(), e.rs()), c.Type()}
 	case *ssa.Builtin:
-		return Scalar{IntLit(0), types.Typ[types.Int]}
+		return Scalar{e.ridLit(0), types.Typ[types.Int]}
 	case *ssa.FreeVar:
 		// captured variable: pointer to unknown heap location
 		nv := e.freshVal(c.Type(), "freevar."+c.Name())
@@ -832,9 +832,9 @@ func (e *Engine) globalPtr(g *ssa.Global) Val {
 	pt := g.Type().(*types.Pointer)
 	if at, ok := pt.Elem().Underlying().(*types.Array); ok {
 		// global arrays live in the element maps (like heap arrays)
-		return PtrV{Ty: pt, Rid: IntLit(int64(id)), Idx: e.ar.idxLit(0), Root: at.Elem(), NonNil: true, ArrBase: true, ArrLen: at.Len()}
+		return PtrV{Ty: pt, Rid: e.ridLit(int64(id)), Idx: e.ar.idxLit(0), Root: at.Elem(), NonNil: true, ArrBase: true, ArrLen: at.Len()}
 	}
-	return PtrV{Ty: pt, Rid: IntLit(int64(id)), Idx: e.ar.idxLit(0), Root: pt.Elem(), NonNil: true}
+	return PtrV{Ty: pt, Rid: e.ridLit(int64(id)), Idx: e.ar.idxLit(0), Root: pt.Elem(), NonNil: true}
 }
 
 const maxGlobals = 100000
@@ -844,7 +844,7 @@ func (e *Engine) constVal(c *ssa.Const) Val {
 	if c.Value == nil {
 		// zero value / nil
 		if _, ok := t.Underlying().(*types.Basic); ok && t.Underlying().(*types.Basic).Kind() == types.UntypedNil {
-			return Scalar{IntLit(0), t}
+			return Scalar{e.ridLit(0), t}
 		}
 		return e.zeroVal(t)
 	}
@@ -1028,7 +1028,7 @@ func loopRangeIndex(l *Loop) *ssa.Alloc {
 // pickRep chooses the value whose static shape the merged value takes: a non-nil-literal pointer if there is one.
 func pickRep(vals []Val) Val {
 	for _, v := range vals {
-		if p, ok := v.(PtrV); ok && p.Local == nil && p.Rid.S != "0" {
+		if p, ok := v.(PtrV); ok && p.Local == nil && !isNilRid(p.Rid) {
 			p.NonNil = false
 			return p
 		}
